@@ -11,9 +11,10 @@
   * `normalizeCode`      — /repo/cbc/code.go `NormalizeCode`
 
   Texts are lists of code points, as in Model/Regex.  Core Lean only.
-  Domain of faithfulness: `|value| < 2^63`, `exp ≤ 18` (beyond, Go's `intPow`
-  wraps), years 0…9999 and non-negative fields for dates; the correspondence
-  run compares each printer with the Go function.
+  Domain of faithfulness: every int64 value (−2^63 included, since the fix of
+  `Amount.String`), `exp ≤ 18` (beyond, Go's `intPow` wraps), years 0…9999 and
+  non-negative fields for dates; the correspondence run compares each printer
+  with the Go function.
 -/
 import GoblVerif.Model.Num
 import GoblVerif.Model.Regex
